@@ -406,6 +406,10 @@ func (t *tracker) step(i ssa.Instruction, origin *ssa.Call, originIdx int) {
 		if t.vals[i.X] {
 			t.vals[i] = true
 		}
+	case *ssa.Slice:
+		if t.vals[i.X] {
+			t.vals[i] = true // a re-slice aliases the same backing array
+		}
 	}
 }
 
@@ -656,6 +660,10 @@ func origins(v ssa.Value) []ssa.Value {
 		case *ssa.UnOp:
 			if x.Op == token.MUL {
 				if a, ok := x.X.(*ssa.Alloc); ok {
+					if lv := localStoreBefore(x, a); lv != nil {
+						rec(lv)
+						return
+					}
 					n := 0
 					if refs := a.Referrers(); refs != nil {
 						for _, r := range *refs {
@@ -885,6 +893,14 @@ func backSlice(v ssa.Value, visit func(ssa.Value) bool) bool {
 							}
 						}
 					}
+				case *ssa.IndexAddr:
+					if rr := r.Referrers(); rr != nil {
+						for _, u := range *rr {
+							if st, ok := u.(*ssa.Store); ok && st.Addr == r {
+								out = append(out, st.Val)
+							}
+						}
+					}
 				}
 			}
 		}
@@ -921,12 +937,22 @@ func backSlice(v ssa.Value, visit func(ssa.Value) bool) bool {
 			return rec(x.X)
 		case *ssa.Slice:
 			return rec(x.X)
+		case *ssa.Alloc:
+			// a container (varargs array, struct temporary): what was stored into it
+			for _, sv := range storesTo(x) {
+				if rec(sv) {
+					return true
+				}
+			}
 		case *ssa.UnOp:
 			if x.Op != token.MUL {
 				return false
 			}
 			switch a := x.X.(type) {
 			case *ssa.Alloc:
+				if lv := localStoreBefore(x, a); lv != nil {
+					return rec(lv)
+				}
 				for _, sv := range storesTo(a) {
 					if rec(sv) {
 						return true
@@ -951,4 +977,27 @@ func backSlice(v ssa.Value, visit func(ssa.Value) bool) bool {
 		return false
 	}
 	return rec(v)
+}
+
+// localStoreBefore: the value of the nearest store to cell that precedes the
+// load in the same basic block (the defer-spilled return idiom
+// `*t0 = v; rundefers; t = *t0; return t`), or nil.
+func localStoreBefore(load *ssa.UnOp, cell ssa.Value) ssa.Value {
+	b := load.Block()
+	if b == nil {
+		return nil
+	}
+	idx := -1
+	for k, i := range b.Instrs {
+		if i == ssa.Instruction(load) {
+			idx = k
+			break
+		}
+	}
+	for k := idx - 1; k >= 0; k-- {
+		if st, ok := b.Instrs[k].(*ssa.Store); ok && st.Addr == cell {
+			return st.Val
+		}
+	}
+	return nil
 }
